@@ -515,7 +515,7 @@ func (e *Engine) findCharClassSearcherAt(haystack []byte, at int) *Match {
 
 // findCompositeSearcher searches using CompositeSearcher for concatenated char classes.
 func (e *Engine) findCompositeSearcher(haystack []byte) *Match {
-	if e.compositeSearcher == nil {
+	if e.compositeSearcher == nil || len(haystack) > maxCompositeBacktrackLen {
 		return e.findNFA(haystack)
 	}
 	atomic.AddUint64(&e.stats.NFASearches, 1) // Count as NFA-family for stats
@@ -528,7 +528,7 @@ func (e *Engine) findCompositeSearcher(haystack []byte) *Match {
 
 // findCompositeSearcherAt searches using CompositeSearcher at position.
 func (e *Engine) findCompositeSearcherAt(haystack []byte, at int) *Match {
-	if e.compositeSearcher == nil {
+	if e.compositeSearcher == nil || len(haystack)-at > maxCompositeBacktrackLen {
 		return e.findNFAAt(haystack, at)
 	}
 	atomic.AddUint64(&e.stats.NFASearches, 1)
